@@ -210,7 +210,9 @@ def iosLoadDevice : Sess :=
   ciscoLoginEnable ;;
   .call "setTerminal" [] (SendCmd .setup (.lit "term len 0") ["term len 0"] ;; SendCmd .setup (.lit "term width 512") ["term width 512"]) ;;
   .call "logVersion" [] (GetCmdOutput .read (.lit "sh ver") ["sh ver"]) ;;
-  .call "checkDeviceName" ["_"] (IssueCmd .read (.lit "") .std ["", "#[ ]?"] ;; checkNameAbort) ;;
+  .call "checkDeviceName" ["_"] (IssueCmd .read (.lit "") .std ["", "#[ ]?"] ;;
+     -- the name is taken from everything in front of the prompt: a garbled echo spoils it
+     .ite .echoBad "" (.abort ["Wrong device name: %q, expected: %q", "_", "_"]) .skip ;; checkNameAbort) ;;
   GetCmdOutput .read (.lit "sh run") ["sh run"] ;;
   .setPlan ;;
   .ret .nil ["_", "err"]
@@ -266,7 +268,7 @@ def linuxLoadDevice : Sess :=
     .ite (.flag .yesNo) "strings.HasSuffix(out, \"?\")" (IssueCmd .login (.lit "yes") (.special [.hash, .password]) ["yes", "_"]) .skip ;;
     .ite (.flag .password) "strings.HasSuffix(out, \"word:\")" (IssueCmd .login .secret (.special [.hash, .password]) ["_", "_"]) .skip ;;
     .ite (.flag .password) "strings.HasSuffix(out, \"word:\")" (.abort ["Authentication failed"]) .skip ;;
-    IssueCmd .setup (.lit "PS1=router#") (.special [.hash]) ["PS1=router#", "_"]) ;;
+    IssueCmd .setup (.lit "PS1=router#") .std ["PS1=router#", "_"]) ;;
   .call "logVersion" [] (GetCmdOutput .read (.lit "uname -r") ["uname -r"] ;; GetCmdOutput .read (.lit "uname -m") ["uname -m"]) ;;
   .call "checkDeviceName" ["_"] (GetCmdOutput .read (.lit "hostname -s") ["hostname -s"] ;; checkNameAbort) ;;
   .call "checkBanner" ["_"] (GetCmdOutput .read (.lit "grep 'NetSPoC' /etc/issue") ["_"] ;; .assumeBanner) ;;
